@@ -28,7 +28,9 @@ ALT(a, b) == <<[k |-> "alt", a |-> a, b |-> b]>>
 RECURSIVE Cat(_, _, _)
 Cat(F(_), sq, k) == IF k = 0 THEN <<>> ELSE Cat(F, sq, k - 1) \o F(sq[k])
 
-Render(txt, t) == CASE t[1] = "v" -> "?" \o t[2] [] t[1] = "u" -> "UNDEF" [] t[1] = "b" -> "_:" \o t[2] [] OTHER -> txt[t[2]]
+\* the variable sigil of this text: ?x and $x are the same variable (the case file chooses, key "~sigil")
+Sg(txt) == IF "~sigil" \in DOMAIN txt THEN txt["~sigil"] ELSE "?"
+Render(txt, t) == CASE t[1] = "v" -> Sg(txt) \o t[2] [] t[1] = "u" -> "UNDEF" [] t[1] = "b" -> "_:" \o t[2] [] OTHER -> txt[t[2]]
 
 TP(txt, tp) == TM(Render(txt, tp[1])) \o TM(Render(txt, tp[2])) \o TM(Render(txt, tp[3]))
 
@@ -75,27 +77,27 @@ ElemToks(txt, p) ==
     [] p.t = "union"  -> UnionToks(txt, p.ps, Len(p.ps))
     [] p.t = "graph"  -> KW("GRAPH") \o TM(Render(txt, p.name)) \o GroupToks(txt, p.p)
     [] p.t = "filter" -> KW("FILTER") \o SY("(") \o ExprToks(txt, p.e) \o SY(")")
-    [] p.t = "bind"   -> KW("BIND") \o SY("(") \o TM("CONCAT") \o SY("(") \o Commas(txt, p.args, Len(p.args)) \o SY(")") \o KW("AS") \o TM("?" \o p.v) \o SY(")")
+    [] p.t = "bind"   -> KW("BIND") \o SY("(") \o TM("CONCAT") \o SY("(") \o Commas(txt, p.args, Len(p.args)) \o SY(")") \o KW("AS") \o TM(Sg(txt) \o p.v) \o SY(")")
     [] p.t = "values" ->
          IF Len(p.vars) = 1
-           THEN KW("VALUES") \o TM("?" \o p.vars[1]) \o SY("{") \o Cat(LAMBDA r : TM(Render(txt, r[1])), p.rows, Len(p.rows)) \o SY("}")
-           ELSE KW("VALUES") \o SY("(") \o Cat(LAMBDA v : TM("?" \o v), p.vars, Len(p.vars)) \o SY(")") \o SY("{") \o
+           THEN KW("VALUES") \o TM(Sg(txt) \o p.vars[1]) \o SY("{") \o Cat(LAMBDA r : TM(Render(txt, r[1])), p.rows, Len(p.rows)) \o SY("}")
+           ELSE KW("VALUES") \o SY("(") \o Cat(LAMBDA v : TM(Sg(txt) \o v), p.vars, Len(p.vars)) \o SY(")") \o SY("{") \o
                 Cat(LAMBDA r : SY("(") \o Cat(LAMBDA x : TM(Render(txt, x)), r, Len(r)) \o SY(")"), p.rows, Len(p.rows)) \o SY("}")
     [] p.t = "sub"    -> SY("{") \o SelectToks(txt, p.q) \o SY("}")
     [] p.t = "unit"   -> SY("{") \o SY("}")
 
-ProjToks(x) == IF x.k = "VAR" THEN TM("?" \o x.v) ELSE KW(x.k) \o SY("(") \o TM("?" \o x.v) \o SY(")") \o KW("AS") \o TM("?" \o x.as)
-OrderToks(c) == IF c.d = "desc" THEN KW("DESC") \o SY("(") \o TM("?" \o c.v) \o SY(")")
-                ELSE ALT(TM("?" \o c.v), KW("ASC") \o SY("(") \o TM("?" \o c.v) \o SY(")"))
+ProjToks(txt, x) == IF x.k = "VAR" THEN TM(Sg(txt) \o x.v) ELSE KW(x.k) \o SY("(") \o TM(Sg(txt) \o x.v) \o SY(")") \o KW("AS") \o TM(Sg(txt) \o x.as)
+OrderToks(txt, c) == IF c.d = "desc" THEN KW("DESC") \o SY("(") \o TM(Sg(txt) \o c.v) \o SY(")")
+                     ELSE ALT(TM(Sg(txt) \o c.v), KW("ASC") \o SY("(") \o TM(Sg(txt) \o c.v) \o SY(")"))
 
 SelectToks(txt, q) ==
   KW("SELECT") \o (IF q.distinct THEN KW("DISTINCT") ELSE <<>>) \o
-  (IF q.star THEN SY("*") ELSE Cat(ProjToks, q.proj, Len(q.proj))) \o
+  (IF q.star THEN SY("*") ELSE Cat(LAMBDA x : ProjToks(txt, x), q.proj, Len(q.proj))) \o
   Cat(LAMBDA g : KW("FROM") \o TM("<" \o g \o ">"), q.from, Len(q.from)) \o
   Cat(LAMBDA g : KW("FROM") \o KW("NAMED") \o TM("<" \o g \o ">"), q.fromnamed, Len(q.fromnamed)) \o
   ALT(KW("WHERE"), <<>>) \o GroupToks(txt, q.p) \o
-  (IF Len(q.group) > 0 THEN KW("GROUP") \o KW("BY") \o Cat(LAMBDA v : TM("?" \o v), q.group, Len(q.group)) ELSE <<>>) \o
-  (IF Len(q.order) > 0 THEN KW("ORDER") \o KW("BY") \o Cat(OrderToks, q.order, Len(q.order)) ELSE <<>>) \o
+  (IF Len(q.group) > 0 THEN KW("GROUP") \o KW("BY") \o Cat(LAMBDA v : TM(Sg(txt) \o v), q.group, Len(q.group)) ELSE <<>>) \o
+  (IF Len(q.order) > 0 THEN KW("ORDER") \o KW("BY") \o Cat(LAMBDA c : OrderToks(txt, c), q.order, Len(q.order)) ELSE <<>>) \o
   (IF q.limit >= 0 THEN KW("LIMIT") \o TM(ToString(q.limit)) ELSE <<>>)
 
 \* quad templates: consecutive quads of the same graph share one GRAPH block (as the tree generator groups them)
